@@ -332,9 +332,9 @@ func c06Val(t *hydrapb.Treasure) string {
 	case t.Uint64Val != nil:
 		return "u64:" + strconv.FormatUint(*t.Uint64Val, 10)
 	case t.Float32Val != nil:
-		return fmt.Sprintf("f32:%08x", math.Float32bits(*t.Float32Val))
+		return fmt.Sprintf("f32:%08x", c06F32Bits(*t.Float32Val))
 	case t.Float64Val != nil:
-		return fmt.Sprintf("f64:%016x", math.Float64bits(*t.Float64Val))
+		return fmt.Sprintf("f64:%016x", c06F64Bits(*t.Float64Val))
 	case t.StringVal != nil:
 		return "str:" + hex.EncodeToString([]byte(*t.StringVal))
 	case t.BoolVal != nil:
@@ -826,7 +826,7 @@ func (s *c06State) execInc(f []string, t0 int64) string {
 			return "nilnil"
 		}
 		r = c06Wire(r, &hydrapb.IncrementFloat32Response{})
-		return s.incReply(fmt.Sprintf("f32:%08x", math.Float32bits(r.Value)), r.IsIncremented, r.Metadata, t0, now())
+		return s.incReply(fmt.Sprintf("f32:%08x", c06F32Bits(r.Value)), r.IsIncremented, r.Metadata, t0, now())
 	case "f64":
 		bits := func(s string) float64 { n, _ := strconv.ParseUint(s, 16, 64); return math.Float64frombits(n) }
 		req := &hydrapb.IncrementFloat64Request{IslandID: island, SwampName: sw, Key: key, IncrementBy: bits(by), SetIfNotExist: ine, SetIfExist: ie}
@@ -841,7 +841,7 @@ func (s *c06State) execInc(f []string, t0 int64) string {
 			return "nilnil"
 		}
 		r = c06Wire(r, &hydrapb.IncrementFloat64Response{})
-		return s.incReply(fmt.Sprintf("f64:%016x", math.Float64bits(r.Value)), r.IsIncremented, r.Metadata, t0, now())
+		return s.incReply(fmt.Sprintf("f64:%016x", c06F64Bits(r.Value)), r.IsIncremented, r.Metadata, t0, now())
 	}
 	return "bad-op"
 }
@@ -1082,7 +1082,27 @@ func c06IntVal(rng *rand.Rand, ty string) string {
 	return strconv.Itoa(rng.Intn(200))
 }
 
-var c06F64s = []float64{0, 0, 1, -1, 0.5, 2.25, 1e10, -3.75, 100}
+var c06F64s = []float64{0, 0, 1, -1, 0.5, 2.25, 1e10, -3.75, 100, math.Copysign(0, -1), math.NaN(), math.Inf(1)}
+
+// increments: the usual steps, both zeros (an increment by zero is refused), NaN, infinity
+var c06FBys = []float64{1, -1, 0.5, 2.25, 0, 1, -1, math.Copysign(0, -1), math.NaN(), math.Inf(-1)}
+
+// every NaN is written as the canonical quiet NaN: which NaN an operation produces (sign, payload)
+// is the processor's choice, and the Lean driver's Float cannot tell NaNs apart.  What is checked
+// is "is a NaN", not its payload.
+func c06F64Bits(f float64) uint64 {
+	if f != f {
+		return 0x7ff8000000000000
+	}
+	return math.Float64bits(f)
+}
+
+func c06F32Bits(f float32) uint32 {
+	if f != f {
+		return 0x7fc00000
+	}
+	return math.Float32bits(f)
+}
 
 func c06Value(rng *rand.Rand) string {
 	switch rng.Intn(16) {
@@ -1090,9 +1110,9 @@ func c06Value(rng *rand.Rand) string {
 		ty := c06Pick(rng, c06IntTys)
 		return ty + ":" + c06IntVal(rng, ty)
 	case 5:
-		return fmt.Sprintf("f64:%016x", math.Float64bits(c06Pick(rng, c06F64s)))
+		return fmt.Sprintf("f64:%016x", c06F64Bits(c06Pick(rng, c06F64s)))
 	case 6:
-		return fmt.Sprintf("f32:%08x", math.Float32bits(float32(c06Pick(rng, c06F64s))))
+		return fmt.Sprintf("f32:%08x", c06F32Bits(float32(c06Pick(rng, c06F64s))))
 	case 7, 8:
 		return "str:" + hex.EncodeToString([]byte(c06Pick(rng, []string{"", "", "a", "hello", "0"})))
 	case 9:
@@ -1155,11 +1175,11 @@ func c06IncOp(rng *rand.Rand, key string) string {
 	var by, cv string
 	switch ty {
 	case "f64":
-		by = fmt.Sprintf("%016x", math.Float64bits(c06Pick(rng, []float64{1, -1, 0.5, 2.25, 0})))
-		cv = fmt.Sprintf("%016x", math.Float64bits(c06Pick(rng, c06F64s)))
+		by = fmt.Sprintf("%016x", c06F64Bits(c06Pick(rng, c06FBys)))
+		cv = fmt.Sprintf("%016x", c06F64Bits(c06Pick(rng, c06F64s)))
 	case "f32":
-		by = fmt.Sprintf("%08x", math.Float32bits(float32(c06Pick(rng, []float64{1, -1, 0.5, 2.25, 0}))))
-		cv = fmt.Sprintf("%08x", math.Float32bits(float32(c06Pick(rng, c06F64s))))
+		by = fmt.Sprintf("%08x", c06F32Bits(float32(c06Pick(rng, c06FBys))))
+		cv = fmt.Sprintf("%08x", c06F32Bits(float32(c06Pick(rng, c06F64s))))
 	default:
 		_, _, signed, _ := c06IntRange(ty)
 		if signed {
@@ -1168,6 +1188,17 @@ func c06IncOp(rng *rand.Rand, key string) string {
 			by = c06Pick(rng, []string{"1", "1", "2", "5", "100", "0", "255"})
 		}
 		cv = c06Pick(rng, []string{"0", "0", "1", "2", "5", "10", "100"})
+		// Int8/Int16/Uint8/Uint16 travel in 32-bit fields: arguments outside the width of the request
+		// (the handlers cast them), among them steps that are zero only after the cast
+		if _, _, _, bits := c06IntRange(ty); bits <= 16 && rng.Intn(4) == 0 {
+			if signed {
+				by = c06Pick(rng, []string{"300", "-129", "256", "65536", "-32769", "65537", "128"})
+				cv = c06Pick(rng, []string{"300", "-200", "256", "65541", "-129", "128"})
+			} else {
+				by = c06Pick(rng, []string{"300", "256", "65536", "65537", "511"})
+				cv = c06Pick(rng, []string{"300", "256", "261", "65536", "65541"})
+			}
+		}
 	}
 	cond := "-"
 	if rng.Intn(2) == 0 {
